@@ -44,6 +44,23 @@ theorem ts_xml_py_xml_str (n : Nat) (h : n * 1000 < 2 ^ 53) :
   unfold intStr
   simp
 
+/-- any accepted lexical form (sign, leading zeros, surrounding xml white space) of a millisecond count in range is
+    written back as the canonical decimal numeral of the same count -/
+theorem ts_xml_py_xml_lexical (s : Str) (n : Nat) (h : intToPy s = .ok (n : Int)) (hn : n * 1000 < 2 ^ 53) :
+    (tsToPy s).map tsToXml = .ok (natStr n) := by
+  unfold tsToPy
+  rw [h]
+  show Except.ok (tsToXml (tsPy (n : Int))) = _
+  unfold tsToXml
+  rw [tsXml_tsPy n hn]
+  unfold intStr
+  simp
+
+example : intToPy [32, 43, 48, 48, 49, 48, 48, 49, 10] = .ok ((1001 : Nat) : Int) := by decide
+
+/-- the repair matters: with truncation (`int(x * 1000)`, the code before fix 02af939) 1001 ms came back as 1000 ms -/
+theorem ts_truncation_refuted : floorNat (rnMul (tsPy 1001) 1000) = 1000 := by decide
+
 /-- Python → XML → Python: a float timestamp `0 ≤ x ≤ 2^41` s (year ≈ 71 000) comes back changed by less than 1 ms -/
 theorem ts_py_xml_py (x : Fp) (hpos : x.neg = false) (hx : x.abs ≤ 2 ^ 41) :
     ∃ k : Nat, tsXml x = (k : Int) ∧ |(tsPy (k : Int)).abs - x.abs| < 1 / 1000 :=
@@ -64,6 +81,12 @@ theorem dec_value_preserved (d : Dec) (hc : d.coeff < 10 ^ 18) (he : -18 ≤ d.e
 example : decToXml ⟨true, 123456789012345678, -18⟩ = [45, 48, 46, 49, 50, 51, 52, 53, 54, 55, 56, 57, 48, 49, 50, 51, 52, 53, 54, 55, 56] := by
   decide
 example : decToXml ⟨false, 1, -7⟩ = [48, 46, 48, 48, 48, 48, 48, 48, 49] := by decide
+
+/-- what `to_xml` writes for such a Decimal is inside the lexical space of xsd:decimal -/
+theorem dec_xml_is_lexical (d : Dec) (hc : d.coeff < 10 ^ 18) (he : -18 ≤ d.exp) :
+    DecimalLex (xmlStrip (decToXml d)) := by
+  obtain ⟨d', h, _⟩ := decToPy_decToXml d hc he
+  exact (decToPy_ok_iff _).mp ⟨d', h⟩
 
 /-- XML → Python → XML → Python: an accepted xsd:decimal text with at most 18 digits is parsed to a Decimal in
     the range of `dec_value_preserved`, so writing it and reading it again gives the same value -/
